@@ -23,7 +23,7 @@ def tier_params(tier):
     return dict(w=4, u1_depth=4, u2_depth=2, two_depth=3, u3_depth=1)
 
 
-def explore_universes(spec, conf, tier, which=('U1', 'U2', 'TWO', 'U3'), keep_states=False, params=None):
+def explore_universes(spec, conf, tier, which=('U1', 'U2', 'TWO', 'U3'), keep_states=False, params=None, opfilter=None):
     """run the named universes for one configuration with a shared de-duplication set;
     returns (merged Result, per-universe summary list)"""
     p = dict(tier_params(tier))
@@ -42,6 +42,9 @@ def explore_universes(spec, conf, tier, which=('U1', 'U2', 'TWO', 'U3'), keep_st
     if 'U3' in which:
         plans.append(('U3', U.alphabet_U2(conf), p['u3_depth'], U.seeds_U3(conf)))
     for name, alpha, depth, seeds in plans:
+        if opfilter:
+            alpha = [o for o in alpha if opfilter(o)]
+            seeds = [s for s in seeds if all(opfilter(o) for o in s)]
         r = engine.bfs(spec, conf, alpha, depth, seeds=seeds, seen=seen, keep_states=keep_states)
         summary.append({'universe': name, 'conf': U.conf_name(conf), 'alphabet': len(alpha), 'depth': depth,
                         'seeds': len(seeds), 'states': r.states, 'transitions': r.transitions,
@@ -87,7 +90,7 @@ class StateSpec(engine.Spec):
 
 def run_state_property(prop, level, fn, tier, seed, classes=('DynGraph', 'DynDiGraph'), modes=(True,),
                        which=('U1', 'U2', 'TWO', 'U3'), flavours=(0, 1, 2, 3), rule='', params=None,
-                       assumptions=(), vacuity=None, sample_fn=None):
+                       assumptions=(), vacuity=None, sample_fn=None, opfilter=None):
     known = common.load_known()
     rep = common.Report(prop, tier, seed, level)
     p = dict(tier_params(tier))
@@ -99,7 +102,7 @@ def run_state_property(prop, level, fn, tier, seed, classes=('DynGraph', 'DynDiG
         for cls in classes:
             for removal in modes:
                 conf = U.conf_make(cls, removal, fl, p['w'])
-                total, summary = explore_universes(spec, conf, tier, which=which, params=params)
+                total, summary = explore_universes(spec, conf, tier, which=which, params=params, opfilter=opfilter)
                 rep.cov['per_universe'] += summary
                 rep.cov['states'] += total.states
                 rep.cov['transitions'] += total.transitions
